@@ -168,7 +168,8 @@ func c12dShape(desc, fe, pe string) (d []byte, f *c12dLevel, p []c12dLevel, err 
 // ---- the scripted reader ----
 
 type c12dScript struct {
-	only   uint16 // 0 = the next command of any type; else only a request of this type
+	only   uint16 // the scripted reply answers the next request of this type
+	marked bool   // ... that carries the marker of a `t` request
 	act    uint16
 	status []byte // the LLRPStatus parameter; the reader lays the payload out for the type the caller expects
 	ver    int    // header version, -1 = echo the request's
@@ -250,7 +251,8 @@ func (r *c12dReader) serve(conn net.Conn) {
 		}
 		var sc *c12dScript
 		dropNow := false
-		if r.script != nil && !internal && !isFence && (r.script.only == 0 || r.script.only == typ) {
+		isT := typ == 1023 && len(payload) >= 7 && binary.BigEndian.Uint32(payload) == 0xC12D0000
+		if r.script != nil && !internal && !isFence && r.script.only == typ && (!r.script.marked || isT) {
 			if r.script.drop {
 				r.script.drop, dropNow = false, true
 				r.drops++
@@ -506,8 +508,13 @@ func TestVerifC12Driver(t *testing.T) {
 		}
 		return false
 	}
+	// every connection's onConnect has returned once its ReaderEventNotification has been forwarded to EdgeX:
+	// settled = as many forwarded events as connections accepted (no SET_READER_CONFIG of the device's own in flight)
+	settle := func() bool {
+		return waitUntil(func() bool { return rd.conns >= 1 && atomic.LoadInt64(&renEvents) >= int64(rd.conns) }, 30*time.Second)
+	}
 	// the device connects and configures keep-alives (onConnect) before anything else
-	if !waitUntil(func() bool { return rd.seen3 >= 1 }, 20*time.Second) || !fence() {
+	if !waitUntil(func() bool { return rd.seen3 >= 1 }, 20*time.Second) || !settle() || !fence() {
 		t.Fatal("device did not connect")
 	}
 
@@ -557,6 +564,7 @@ func TestVerifC12Driver(t *testing.T) {
 				fmt.Fprintln(w, "error: bad request")
 				continue
 			}
+			sc.only, sc.marked = 1023, true
 			n0 := setScript(sc)
 			req := c12dOut{typ: llrp.MsgCustomMessage, data: []byte{0xC1, 0x2D, 0, 0, 0, byte(exp >> 8), byte(exp)}}
 			var err error
@@ -580,6 +588,7 @@ func TestVerifC12Driver(t *testing.T) {
 				fence()
 				dev.resetConn()
 				waitUntil(func() bool { return rd.conns > c0 }, 30*time.Second)
+				settle()
 				fence()
 			}
 			if !ok {
@@ -613,6 +622,18 @@ func TestVerifC12Driver(t *testing.T) {
 				reqs = []dsModels.CommandRequest{{DeviceResourceName: cmd[0], Type: common.ValueTypeObject}}
 				params = []*dsModels.CommandValue{cv(cmd[0], common.ValueTypeObject, map[string]interface{}{})}
 			}
+			// the request the command sends (the reader answers exactly that one, not e.g. a SET_READER_CONFIG of onConnect)
+			sc.only = map[string]uint16{"r:" + ResourceReaderConfig: 2, "r:" + ResourceReaderCap: 1, "r:" + ResourceROSpec: 26, "r:" + ResourceAccessSpec: 44,
+				"w:" + ResourceReaderConfig: 3, "w:" + ResourceROSpec: 20, "w:" + ResourceAccessSpec: 40, "w:Custom": 1023,
+				"w:" + ResourceROSpecID + ":" + ActionEnable: 24, "w:" + ResourceROSpecID + ":" + ActionStart: 22, "w:" + ResourceROSpecID + ":" + ActionStop: 23,
+				"w:" + ResourceROSpecID + ":" + ActionDisable: 25, "w:" + ResourceROSpecID + ":" + ActionDelete: 21,
+				"w:" + ResourceAccessSpecID + ":" + ActionEnable: 42, "w:" + ResourceAccessSpecID + ":" + ActionDisable: 43,
+				"w:" + ResourceAccessSpecID + ":" + ActionDelete: 41}[tok[0]+":"+tok[1]]
+			if sc.only == 0 {
+				fmt.Fprintln(w, "error: bad request")
+				continue
+			}
+			settle()
 			n0 := setScript(sc)
 			var err error
 			panicked := false
@@ -662,6 +683,7 @@ func TestVerifC12Driver(t *testing.T) {
 				continue
 			}
 			ok := fence() // passes on the connection the device ends up with
+			settle()
 			rd.mu.Lock()
 			delta := rd.conns - c0
 			rd.mu.Unlock()
